@@ -21,7 +21,7 @@ func init() {
 			"D1 entry points agree in every store — Add(i) is AddWithCount(i, 1) (delegation in either direction or equal effects after substituting the weight), AddBin(b) has the effects of AddWithCount(b.index, b.count), AddWithCount(_, 0) writes nothing. "+
 			"D2 cached-total coherence in the dense family — every path that adds a weight into the bin array adds the same term to the cached total; when a collapsing adjust folds bins, the range it sums equals the range it resets and the sum goes to the edge bin (or the whole cached total goes to the single remaining bin). "+
 			"D3 iteration contract — in every ForEach each callback verdict immediately controls a return; the dense and paginated iterators skip empty entries; Bins() closes its channel on every exit; ForEach and Bins of the paginated store (twin implementations of the same merge of sorted buffer and pages) yield the same (index, count) terms under the same path conditions. "+
-			"D4 MinIndex/MaxIndex of the dense family and the sparse store return the undefined-index error exactly on the emptiness edge. "+
+			"D4 MinIndex/MaxIndex of the dense family and the sparse store return the undefined-index error exactly on the emptiness edge; the sparse store's extremes are folds from the opposite end of the int range that replace the running value exactly when a key lies beyond it, its total is a running sum from 0; the paginated store's extremes read slots of the page table only inside it (by the form of the page number or a taken test), scan every page from its first (MinIndex) resp. last (MaxIndex) line, and compare the page number with the page of the buffered extreme non-strictly. "+
 			"D5 window loops of the dense read paths (ForEach, Bins, Encode, encodeSparsely) cover minIndex…maxIndex inclusive (ToProto/EncodeProto/encodeDensely/Reweight are checked by C09/C06/C16). "+
 			"D6 the window-moving primitives of the dense store as linear forms — shiftCounts copies bins[min−off … max−off] to +shift, resets exactly the vacated slots for either sign of the shift and updates offset −= shift; resetBins zeroes bins[from−off … to−off]; centerCounts stores the new window and shifts by offset + len/2 − (newMin + (newMax−newMin+1)/2); truncating integer division is only applied to widths and lengths. "+
 			"D9 page table of the paginated store — the slice of pages and the index of its first page are written only by the page accessor (resolved by role, with the helpers split off it), by Clear, or into a fresh object; elements of a page obtained from the accessor are touched only on paths that created the page (ensureExists is the constant true) or established by its length that it is not empty (Clear keeps emptied slots: a nil test is not enough). "+
@@ -60,6 +60,7 @@ func runC04(c *Ctx) {
 	c04PaginatedEmptiness(c, pr)
 	c04PageTable(c, pr, "C04-D9")
 	c04PageUse(c, pr, "C04-D9")
+	c04PaginatedExtremes(c, pr, "C04-D4")
 	if pr.sortFlag != "" {
 		c.shared(func() { c14SortFlag(c, pr) }, func(o *Obligation) bool { return true })
 	}
@@ -597,6 +598,23 @@ func c04Iteration(c *Ctx, impls []*types.Named, rule string) {
 				diff = diff[:3]
 			}
 			c.R.check(len(diff) == 0 && len(a) > 3, rule, "BufferedPaginatedStore/ForEach-vs-Bins", funcName(fe), c.fpos(fe), "the two iterators over (sorted buffer ⊕ pages) yield the same (index, count) terms under the same path conditions", firstNonEmpty(strings.Join(diff, " | "), fmt.Sprintf("%d path signatures agree", len(a))))
+			// both walk the buffer in merge order with the pages: both sort it first (in the function itself, before the
+			// walk starts — for Bins before the producer goroutine is started)
+			sortsFirst := func(f *ssa.Function) bool {
+				if len(f.Blocks) == 0 {
+					return false
+				}
+				for _, b := range f.Blocks {
+					for _, in := range b.Instrs {
+						if call, ok := in.(*ssa.Call); ok && pr.isSortCall(newTermCtx(c.P), call) {
+							return b == f.Blocks[0] || b.Dominates(f.Blocks[len(f.Blocks)-1]) || len(b.Preds) <= 1
+						}
+					}
+				}
+				return false
+			}
+			sf, sb := sortsFirst(fe), sortsFirst(bf)
+			c.R.check(sf && sb, rule, "BufferedPaginatedStore/iterators-sort-first", funcName(bf), c.fpos(bf), "ForEach and Bins sort the buffer before merging it with the pages", fmt.Sprintf("ForEach sorts=%v Bins sorts=%v", sf, sb))
 		}
 	}
 }
@@ -1430,4 +1448,186 @@ func constantInt64(k *ssa.Const) (int64, bool) {
 		return 0, false
 	}
 	return constant.Int64Val(k.Value)
+}
+
+// c04PaginatedExtremes: MinIndex / MaxIndex of the paginated store walk the page table by page number. On every
+// enumerated path (loops unrolled up to two visits): a slot pages[P − first] is read only with P inside the table —
+// P ≥ first and P < first + len(pages), by the form of P or by a taken test —, and the lines of a page are scanned from
+// its very first line (MinIndex: line 0) resp. its very last (MaxIndex: len(page) − 1): a scan that starts one line in
+// misses a minimum on line 0, one that runs to P == first + len(pages) reads past the table when every page is empty.
+func c04PaginatedExtremes(c *Ctx, pr *paginatedRoles, rule string) {
+	if pr == nil || pr.typ == nil {
+		return
+	}
+	var pagesF, firstF string
+	for f := range roleAnchors {
+		if recvNamed(f) == pr.typ && len(f.Params) == 3 && f.Params[2].Type().String() == "bool" {
+			// the accessor: the table's fields are what it writes
+			for _, b := range f.Blocks {
+				for _, in := range b.Instrs {
+					if st, ok := in.(*ssa.Store); ok {
+						if fa, ok := st.Addr.(*ssa.FieldAddr); ok && types.Identical(derefType(fa.X.Type()), pr.typ) {
+							switch derefType(fa.Type()).String() {
+							case "[][]float64":
+								pagesF = fieldName(fa.X.Type(), fa.Field)
+							case "int":
+								firstF = fieldName(fa.X.Type(), fa.Field)
+							}
+						}
+					}
+				}
+			}
+		}
+	}
+	if pagesF == "" || firstF == "" {
+		return // reported by page-table/accessor
+	}
+	canonKey := func(t *Term) *Linear {
+		l := linearOf(stripVers(t))
+		out := &Linear{Coef: map[string]int{}, Atoms: map[string]*Term{}, Exact: l.Exact, Const: l.Const}
+		for k, cf := range l.Coef {
+			at := stripVers(l.Atoms[k])
+			key := k
+			switch {
+			case isRecvField(at, firstF):
+				key = "first"
+			case at.Op == "builtin" && at.Sym == "len" && len(at.Args) == 1 && isRecvField(stripVers(at.Args[0]), pagesF):
+				key = "npages"
+			default:
+				key = at.Key()
+			}
+			out.Coef[key] += cf
+			out.Atoms[key] = at
+		}
+		for k, v := range out.Coef {
+			if v == 0 {
+				delete(out.Coef, k)
+			}
+		}
+		return out
+	}
+	isConstLin := func(l *Linear) (int, bool) { return l.Const, len(l.Coef) == 0 }
+	for _, side := range []struct {
+		name string
+		min  bool
+	}{{"MinIndex", true}, {"MaxIndex", false}} {
+		f := c.P.DeclaredMethod(pr.typ, side.name)
+		if f == nil {
+			continue
+		}
+		paths, _ := exec(c, f, nil, 2)
+		bad := ""
+		nSlot, nLine := 0, 0
+		for _, p := range paths {
+			firstLine := map[string]bool{} // page term key -> first line already seen
+			for _, ld := range p.Loads {
+				a := ld.Addr
+				if a == nil || a.Op != "index" || len(a.Args) != 2 {
+					continue
+				}
+				base := stripVers(a.Args[0])
+				switch {
+				case isRecvField(base, pagesF):
+					// a slot of the table
+					nSlot++
+					P := canonKey(a.Args[1])
+					P.Coef["first"]++ // P = K + first
+					if P.Coef["first"] == 0 {
+						delete(P.Coef, "first")
+					}
+					// lower: P − first is a non-negative constant, or `first ≤ P` was taken
+					lowD := linCombine(P, &Linear{Coef: map[string]int{"first": 1}, Atoms: map[string]*Term{}, Exact: true}, -1)
+					lowerOK := false
+					if k, isC := isConstLin(lowD); isC && k >= 0 {
+						lowerOK = true
+					}
+					// upper: P − first − npages is a negative constant, or `P < first + npages` was taken
+					upD := linCombine(lowD, &Linear{Coef: map[string]int{"npages": 1}, Atoms: map[string]*Term{}, Exact: true}, -1)
+					upperOK := false
+					if k, isC := isConstLin(upD); isC && k < 0 {
+						upperOK = true
+					}
+					for _, cd := range p.Conds {
+						if cd.Seq > ld.Seq || !cd.Taken {
+							continue
+						}
+						t := cd.Term
+						if len(t.Args) != 2 {
+							continue
+						}
+						d := linCombine(canonKey(t.Args[0]), canonKey(t.Args[1]), -1) // a − b
+						switch {
+						case t.isBin("<"): // a < b: want P < first+npages  ⇒  a − b == P − first − npages
+							if e := linCombine(d, linCombine(P, &Linear{Coef: map[string]int{"first": 1, "npages": 1}, Atoms: map[string]*Term{}, Exact: true}, -1), -1); len(e.Coef) == 0 && e.Const == 0 {
+								upperOK = true
+							}
+						case t.isBin("<="): // a ≤ b: want first ≤ P ⇒ a − b == first − P
+							if e := linCombine(d, linCombine(&Linear{Coef: map[string]int{"first": 1}, Atoms: map[string]*Term{}, Exact: true}, P, -1), -1); len(e.Coef) == 0 && e.Const == 0 {
+								lowerOK = true
+							}
+						}
+					}
+					if !lowerOK || !upperOK {
+						bad = firstNonEmpty(bad, fmt.Sprintf("a slot of the page table is read at page number %s without the evidence first ≤ P (%v) and P < first + len(pages) (%v) on [%s]", shorten(a.Args[1].Key(), 70), lowerOK, upperOK, pathSig(p)))
+					}
+				case base.Op == "index" && isRecvField(stripVers(base.Args[0]), pagesF):
+					// a line of a page: the first one read on this path for this page
+					if firstLine[base.Key()] {
+						continue
+					}
+					firstLine[base.Key()] = true
+					nLine++
+					L := linearOf(stripVers(a.Args[1]))
+					okFirst := false
+					if side.min {
+						k, isC := isConstLin(L)
+						okFirst = isC && k == 0
+					} else {
+						// len(page) − 1
+						okFirst = L.Const == -1 && len(L.Coef) == 1
+						for k, cf := range L.Coef {
+							at := stripVers(L.Atoms[k])
+							if !(cf == 1 && at.Op == "builtin" && at.Sym == "len" && len(at.Args) == 1 && stripVers(at.Args[0]).Key() == base.Key()) {
+								okFirst = false
+							}
+						}
+					}
+					if !okFirst {
+						bad = firstNonEmpty(bad, fmt.Sprintf("the scan of a page starts at line %s on [%s]", shorten(a.Args[1].Key(), 60), pathSig(p)))
+					}
+				}
+			}
+		}
+		// the walk may stop early at the page of the buffered extreme — but that page itself is still scanned: the
+		// page number is compared with `index >> log2` non-strictly (a strict comparison skips the page that may hold
+		// a bin beyond the buffered extreme)
+		for _, p := range paths {
+			for _, cd := range p.Conds {
+				t := cd.Term
+				if !t.isBin("<") || len(t.Args) != 2 {
+					continue
+				}
+				isPageOf := func(x *Term) bool {
+					x = stripVers(x)
+					return x.isBin(">>") && stripVers(x.Args[0]).Op != "const"
+				}
+				mentionsFirst := func(x *Term) bool {
+					hit := false
+					stripVers(x).walk(func(y *Term) bool {
+						if isRecvField(y, firstF) {
+							hit = true
+						}
+						return true
+					})
+					return hit
+				}
+				if isPageOf(t.Args[0]) && mentionsFirst(t.Args[1]) || isPageOf(t.Args[1]) && mentionsFirst(t.Args[0]) {
+					bad = firstNonEmpty(bad, "the page number is compared strictly with the page of a buffered index: "+shorten(t.Key(), 120))
+				}
+			}
+		}
+		c.R.check(bad == "" && nSlot > 0 && nLine > 0, rule, "BufferedPaginatedStore."+side.name+"/page-walk", shortFn(f), c.fpos(f),
+			map[bool]string{true: "slots read only inside the table; every page scanned from line 0", false: "slots read only inside the table; every page scanned from its last line"}[side.min],
+			firstNonEmpty(bad, fmt.Sprintf("%d slot read(s), %d page scan(s) on %d path(s)", nSlot, nLine, len(paths))))
+	}
 }
